@@ -98,7 +98,7 @@ func buildScenarios(c *srcChain) []*scenarioSpec {
 	rng := lib.Rand("c13-plan", 0)
 	muts := catalogue()
 	var eps []episodeSpec
-	perMut := lib.Pick(2, 8)
+	perMut := lib.Pick(3, 14)
 	for _, m := range muts {
 		// targets by their relation to a validator-set change
 		byNear := map[string][]int64{}
@@ -124,7 +124,7 @@ func buildScenarios(c *srcChain) []*scenarioSpec {
 		}
 	}
 	rng.Shuffle(len(eps), func(i, j int) { eps[i], eps[j] = eps[j], eps[i] })
-	nSurg := lib.Pick(10, 48)
+	nSurg := lib.Pick(12, 72)
 	var out []*scenarioSpec
 	add := func(s *scenarioSpec) {
 		s.ID, s.Seed, s.Tier = len(out), lib.Seed(), lib.Tier()
@@ -149,7 +149,7 @@ func buildScenarios(c *srcChain) []*scenarioSpec {
 			add(&scenarioSpec{Kind: "final", Episodes: []episodeSpec{{T: c.top - 1, Mut: m.name}}, Reopen: true})
 		}
 	}
-	for i := 0; i < lib.Pick(4, 40); i++ {
+	for i := 0; i < lib.Pick(6, 60); i++ {
 		add(&scenarioSpec{Kind: "mix", P: 20 + rng.Intn(50), Budget: 4 + rng.Intn(8)})
 	}
 	for i := 0; i < lib.Pick(1, 3); i++ {
@@ -321,8 +321,12 @@ func runScenario(run *lib.Run, base, dumpFile string, s *scenarioSpec, attempt i
 			// the node left fast sync while nobody in its pool claimed a greater height: timing of the
 			// harness's announcements, nothing to judge; once more
 			run.Count("scenarios_repeated_after_leaving_fast_sync_early", 1)
+			run.Count("scenarios_repeated_after_leaving_fast_sync_early_"+s.Kind, 1)
 			runScenario(run, base, dumpFile, s, 1)
 			return
+		}
+		if early {
+			lib.WriteObservation(prop, fmt.Sprintf("left-fast-sync-early-scenario%d-seed%d", s.ID, lib.Seed()), map[string]interface{}{"scenario": s, "node_events_tail": readTail(filepath.Join(rt, "c13-node-events.log"), 12000), "inputs_tail": tail(string(inputs), 6000)})
 		}
 		if ie := run.Import(out); ie != nil {
 			run.Inconclusive(fmt.Sprintf("scenario %d: cannot import results: %v", s.ID, ie))
@@ -354,6 +358,7 @@ func runScenario(run *lib.Run, base, dumpFile string, s *scenarioSpec, attempt i
 		run.Count("worker_crashes", 1)
 		if s.Kind == "final" {
 			run.Count("final_altered_commits_that_reached_the_store", 1)
+			run.Count("final_altered_commits_decided", 1)
 		}
 		run.Violation("blocksync-panic:"+site+":"+mut, fmt.Sprintf("scenario %d (%s): the syncing node's process died (exit %d) in %s at %s while/after %s was served; block store at %d, state at %d: %s", s.ID, s.Kind, r.exit, routine, site, mut, pm.StoreHeight, pm.StateHeight, firstLine(crash)), w)
 		return
@@ -439,7 +444,7 @@ func parent() {
 			nFinal++
 		}
 	}
-	run.Require("final_altered_commits_that_reached_the_store", nFinal-1)
+	run.Require("final_altered_commits_decided", nFinal-1)
 	run.Require("syncs_completed", total*7/10)
 	run.Require("final_states_equal", total*7/10)
 	run.Require("final_application_states_equal", total*7/10)
